@@ -241,7 +241,9 @@ Definition value_finish (vstart cur : bytes) (value_end : option nat) (off : nat
      '(remainder, rest) <- unwrap (take_n n vstart) ;;             (* i.next_slice(n) *)
      Ok ((if partial then ValueDone remainder else Value remainder) :: acc, rest))%outcome in
   match value_end with
-  | None => if Nat.eqb off 0 then Ok (Value [] :: acc, cur) else trim off
+  | None => if Nat.eqb off 0
+            then Ok ((if partial then ValueDone [] else Value []) :: acc, cur)
+            else trim off
   | Some idx => trim idx
   end.
 
